@@ -208,9 +208,15 @@ func (c *Controller) HandleVisitor(m *msg.NatHoleVisitor, transporter transport.
 		delete(c.sessions, sid)
 	}()
 
+	sent := false
 	if err := errors.PanicToError(func() {
-		clientCfg.sidCh <- sid
-	}); err != nil {
+		select {
+		case clientCfg.sidCh <- sid:
+			sent = true
+		case <-time.After(time.Duration(NatHoleTimeout) * time.Second):
+			// the proxy was closed after the lookup above, nobody receives from sidCh any more
+		}
+	}); err != nil || !sent {
 		return
 	}
 
